@@ -129,6 +129,11 @@ func nativeMapToObject(val any, path map[visit]bool) Object {
 
 	valValue := reflect.ValueOf(val)
 
+	// only maps with string keys have a counterpart in Textwire
+	if valValue.Type().Key().Kind() != reflect.String {
+		return nil
+	}
+
 	for _, key := range valValue.MapKeys() {
 		elem := nativeToObject(valValue.MapIndex(key).Interface(), path)
 
